@@ -321,8 +321,7 @@ class RefreshHarness:
 
     # ---- system tables from the snapshot
     def _row(self, r, snap, occurrence):
-        ep, miss = r["ep"], r["miss"]
-        info = snap["local"] if ep == 0 else snap["info"][ep - 1] if isinstance(snap["info"], (list, tuple)) else snap["info"][ep]
+        ep, miss, info = r["ep"], r["miss"], r["info"]
         dc, rack = LOCS[info["loc"]]
         row = {"peer": addr(ep) if (ep != 0 and occurrence == 0) else "10.0.%d.%d" % (occurrence + 1, ep + 1),
                "address": addr(ep), "data_center": dc, "rack": rack, "host_id": hid(ep),
@@ -637,6 +636,8 @@ class AgreeHarness:
         q = req["query"]
         if "schema_version FROM system.peers" in q and not q.startswith("SELECT *"):
             i = len(self.polls)
+            if i >= 64:
+                raise SimDeadlock("the agreement wait keeps polling (more than 64 polls)")
             self.polls.append(self.world.clock.now - self.t0)
             s = self.snaps[min(i, len(self.snaps) - 1)]
             self._cur = s
